@@ -223,8 +223,13 @@ def rule_r2(rep, idx):
                         'the number of bytes copied into memory does not depend on the length word of the header (it is the size of what was '
                         'read from the file): the symbol tables behind the image land in simulated memory, which must read as zero there')
                 return
-        rep.undecided('R2', 'load:image-at-0-length-word<<2', 'the loader does not read the image straight into memory.data(): idiom not recognised', pos(f.node))
-        return
+            lenvar = cast.decl_ref(cast.call_args(mcs[0])[2])
+            if lenvar in hdr_vars and not any(y['kind'] == 'BinaryOperator' for y in walk(cast.call_args(mcs[0])[0])):
+                # staging buffer copied to memory.data() with exactly the header-derived byte count: judged like the direct read
+                ok_dest, size_var, where = True, lenvar, pos(mcs[0])
+        if not ok_dest:
+            rep.undecided('R2', 'load:image-at-0-length-word<<2', 'the loader does not read the image straight into memory.data(): idiom not recognised', pos(f.node))
+            return
     if ok_dest and size_var:
         # size variable: read as 4 bytes from the file, then `<<= 2`, no other modification before the image read
         mods = []
